@@ -11,7 +11,7 @@
 import ast
 
 from sa.astutil import walk_body, walk_local, dotted, norm, callee_attr
-from sa.dispatch import op_branches, tok_consts
+from sa.dispatch import is_single_operand_branch, op_branches, tok_consts
 from sa.optable import OT0, OT0_UNARY, Z3_PYOP, Z3_FUNC
 from sa.exprmodel import KINDS
 from sa.repo import AnalysisError
@@ -91,7 +91,7 @@ def run(ck):
     seen = {}
     for b in op_branches(fn, m, cls, consts=consts):
         got, txt = _branch_class(b, m, sdiv_ok)
-        unary = any(g.startswith("not(len(args) > 1)") for g in b["guards"])
+        unary = is_single_operand_branch(b)
         for op in b["ops"]:
             key = ("u:" if unary else "b:") + op
             if got == "TOKEN":
